@@ -6,7 +6,6 @@ Import ListNotations.
 From SV Require Import Text G_c03 C03_Model C03_Lemmas.
 
 (* ------------------------------------------------------------------ splitlines *)
-Definition nolb (s : str) : bool := forallb (fun c => negb (is_linebreak c)) s.
 
 Lemma splitlines_aux_line : forall l rest cur, nolb l = true ->
   splitlines_aux (l ++ nl :: rest) cur = (rev cur ++ l) :: splitlines_aux rest [].
@@ -104,7 +103,6 @@ Proof.
 Qed.
 
 (* ------------------------------------------------------------------ split / join *)
-Definition nosep (sep : byte) (s : str) : bool := forallb (fun c => negb (byte_eqb c sep)) s.
 Lemma split_on_nosep : forall sep s, nosep sep s = true -> split_on sep s = [s].
 Proof.
   intros sep. induction s as [|c s IH]; intros H; [reflexivity|]. cbn [nosep forallb] in H. apply andb_prop in H.
@@ -318,7 +316,6 @@ Proof.
 Qed.
 
 (* strip() is the identity on text that starts and ends with a non-blank character *)
-Definition wsfree (s : str) : bool := forallb (fun c => negb (is_ws c)) s.
 Lemma rstrip_ws_wsfree : forall k, wsfree k = true -> rstrip_ws k = k.
 Proof.
   induction k as [|c k IH]; intros H; [reflexivity|]. cbn [wsfree forallb] in H. apply andb_prop in H. destruct H as [H1 H2].
@@ -398,7 +395,6 @@ Proof.
   - cbn [split_ws_aux]. reflexivity.
   - rewrite IH; [|discriminate|exact Hk]. cbn [rev]. rewrite <- app_assoc. reflexivity.
 Qed.
-Definition word (k : str) : bool := wsfree k && negb (match k with [] => true | _ => false end).
 Lemma word_inv : forall k, word k = true -> k <> [] /\ wsfree k = true.
 Proof. intros k H. unfold word in H. apply andb_prop in H. destruct H as [H1 H2]. split; [destruct k; [discriminate|discriminate]|exact H1]. Qed.
 Lemma split_ws_join_tab : forall fs, forallb word fs = true -> split_ws (join tab fs) = fs.
